@@ -72,7 +72,8 @@ def parts(mm):
 
 
 ENTRIES = ["model_matrix", "Formula.get_model_matrix", "ModelSpec.from_spec.get_model_matrix", "Materializer(data).get_model_matrix", "reuse-spec",
-           "model_matrix(spec, **overrides)", "model_matrix(matrix, **overrides)", "spec.get_model_matrix(**overrides)"]
+           "model_matrix(spec, **overrides)", "model_matrix(matrix, **overrides)", "spec.get_model_matrix(**overrides)",
+           "Materializer(data) used twice (other output, other formula first)", "registry picks the materializer"]
 MATS = ["pandas", "narwhals/pandas", "narwhals/arrow", "pandas/dict", "pandas/recarray"]
 
 
@@ -87,6 +88,19 @@ def build(formula, df, entry, mat, output, na_action):
     if entry == "Materializer(data).get_model_matrix":
         cls = PandasMaterializer if mat.startswith("pandas") else NarwhalsMaterializer
         return cls(data).get_model_matrix(formula, **opts)
+    if entry == "Materializer(data) used twice (other output, other formula first)":
+        # one materializer object serves several calls: an earlier call with another output type and another formula (sharing factors) must leave no trace
+        cls = PandasMaterializer if mat.startswith("pandas") else NarwhalsMaterializer
+        m = cls(data)
+        other = {"pandas": "sparse", "numpy": "pandas", "sparse": "numpy"}[output]
+        try:
+            m.get_model_matrix("a + A", output=other, na_action=na_action)
+            m.get_model_matrix(formula, output=other, na_action=na_action)
+        except Exception:  # noqa - the warm-up calls are not the subject
+            pass
+        return m.get_model_matrix(formula, **opts)
+    if entry == "registry picks the materializer":
+        return model_matrix(formula, data, **opts)
     if mat != "narwhals/arrow":
         opts["materializer"] = mname  # on an arrow table the registry must pick narwhals by itself
     if entry == "model_matrix":
@@ -120,6 +134,8 @@ def drv(c, ctx, col):
     df = ctx["frame_objs"][fname]
     if fname.startswith("nulls") and na_action == "ignore" and any(t in formula for t in ("poly(", "bs(", "center(", "scale(")):
         raise Skip()  # stateful numeric transforms on data with unhandled nulls: behaviour not specified
+    if entry == "registry picks the materializer" and mat == "narwhals/pandas":
+        raise Skip()  # (a pandas frame is registered for the pandas materializer: same execution as mat == "pandas")
     if mat in ("pandas/dict", "pandas/recarray") and fname != "clean":
         raise Skip()  # plain containers: exercised on the clean frame only (None / categorical cells have no recarray representation)
     if fname == "categorical-dtype" and mat == "narwhals/arrow":
